@@ -128,7 +128,17 @@ CLAIMED["C05"] = (
     "optimizer generates is never built or run.",
     _NOTE, "DESIGN.md section 5, C05")
 
-for _p in ["C02", "C03", "C10", "C11",
+CLAIMED["C11"] = (
+    "path-condition rules on the flatten work-list loops and on fold() "
+    "(which conditions dominate each append / re-queue / return), MRO and "
+    "table agreement of the folding mappers, rule F on FlattenMapper",
+    "Partial: the structural clauses of flattening and constant folding are "
+    "decided for all inputs from the path conditions; value preservation and "
+    "the normal forms of term collection and distribution are declined (no "
+    "structural reading).",
+    _NOTE, "DESIGN.md section 5, C11")
+
+for _p in ["C02", "C03", "C10",
            "C12", "C15", "C16", "C19"]:
     NOT_APPLICABLE[_p] = ("check under construction in this revision (see "
                           "DESIGN.md for the planned static rule)")
